@@ -306,3 +306,46 @@ Proof.
     destruct (Nat.ltb_spec (S n) 10); [reflexivity|lia]. }
   rewrite E. destruct (reading c); [|reflexivity]. destruct (c_closed c); reflexivity.
 Qed.
+
+(* ------------------------------------------------------------------ shared writers *)
+
+Lemma frame_headers_cons : forall b pl rest h, hdr_decode b = HOk h -> length b = 10%nat ->
+  length pl = N.to_nat (h_len h) -> frame_headers ((b ++ pl) ++ rest) = h :: frame_headers rest.
+Proof.
+  intros b pl rest h D Lb Lp. unfold frame_headers.
+  assert (L : length ((b ++ pl) ++ rest) = S (9 + N.to_nat (h_len h) + length rest)).
+  { rewrite !app_length. lia. }
+  rewrite L. cbn [parse_frames]. rewrite L.
+  destruct (Nat.ltb_spec (S (9 + N.to_nat (h_len h) + length rest)) 10); [lia|].
+  assert (F : firstn 10 ((b ++ pl) ++ rest) = b).
+  { rewrite <- app_assoc, firstn_app, Lb. replace (10 - 10)%nat with 0%nat by lia.
+    rewrite firstn_O, app_nil_r. apply firstn_all2. lia. }
+  rewrite F, D. f_equal.
+  assert (S' : skipn (10 + N.to_nat (h_len h)) ((b ++ pl) ++ rest) = rest).
+  { rewrite skipn_app, app_length, Lb, Lp. replace (10 + N.to_nat (h_len h) - (10 + N.to_nat (h_len h)))%nat with 0%nat by lia.
+    rewrite skipn_all2 by (rewrite app_length; lia). reflexivity. }
+  rewrite S'. apply parse_frames_fuel; lia.
+Qed.
+
+(* whatever order the writer serves the calls in, the stream it produces carries, frame by frame,
+   exactly the headers of the accepted calls - each once, each followed by its own payload *)
+Lemma msg_writer_stream_headers : forall ver items, ver < 8 ->
+  Forall (fun it : N * N * N * N => snd (fst it) < 2 ^ 32) items ->
+  frame_headers (msg_writer_stream ver items) = msg_writer_headers ver items.
+Proof.
+  intros ver items V. induction items as [|[[[typ len] id] fill] rest IH]; intros W.
+  - reflexivity.
+  - inversion W as [|x l Hid Hrest]; subst. cbn [fst snd] in Hid.
+    unfold msg_writer_stream, msg_writer_frames, msg_writer_headers in *. cbn [flat_map].
+    unfold msg_writer_frame at 1.
+    destruct (hdr_encode (mkHdr ver typ len id)) as [b|] eqn:E.
+    + cbn [app concat]. destruct (hdr_encode_some _ _ E) as (Hb & T & R & Ln). cbn [h_typ h_len] in *.
+      rewrite (frame_headers_cons b (repeat fill (N.to_nat len)) _ (mkHdr ver typ len id)).
+      * rewrite IH by assumption. reflexivity.
+      * apply hdr_roundtrip_enc_dec; [|assumption|exact E].
+        unfold wf_hdr. cbn [h_ver h_typ h_len h_id]. change (2 ^ 8) with 256. change (2 ^ 16) with 65536.
+        change (2 ^ 32) with 4294967296 in *. repeat split; lia.
+      * subst b. apply hdr_write_length.
+      * cbn [h_len]. apply repeat_length.
+    + cbn [app]. apply IH. assumption.
+Qed.
